@@ -4,7 +4,7 @@
    Quantifiers: every server feature set cfg, every history ops of create / read / update / delete /
    use-of-secret operations, every request document (key/value list, incl. unknown members and members
    named like the response's own), every presented token, every scripted embedder hook. *)
-From Verif Require Import Base Types Dcr C12Proofs.
+From Verif Require Import Base Types Dcr DcrUse C12Proofs C12UseProofs.
 Local Open Scope N_scope.
 
 (* In every reachable state, a read, update or delete is accepted only when it presents, as a bearer
@@ -114,6 +114,89 @@ Theorem dcr_readback : forall cfg ops1 o ops2 cid cr d t cr' d',
 Proof. exact readback_all_histories. Qed.
 Print Assumptions dcr_readback.
 
+(* ---- the returned secret, USED (Model/DcrUse.v): token, introspection and revocation endpoints,
+        client_secret_post / client_secret_basic / client_secret_jwt ---- *)
+
+(* Histories may contain such uses anywhere: they never change the store, so every theorem above
+   about the states of drun holds for the states of xrun (erase turns a use into a Dcr.UseSecret). *)
+Theorem dcr_uses_change_nothing : forall cfg ops, fst (xrun cfg ops) = fst (drun cfg (map erase ops)).
+Proof. exact xrun_state. Qed.
+Print Assumptions dcr_uses_change_nothing.
+
+(* The client_secret returned by the registration or update at index |ops1| is - after any further
+   history that does not update or delete that registration - accepted at EVERY enabled endpoint by
+   EVERY secret-based method in force there (the endpoint's own method, else the token endpoint's;
+   for client_secret_jwt provided the client signs with an algorithm it registered / the server
+   accepts: jwt_usable), and it is the ONLY secret any of these endpoints accepts, by any of the three
+   methods.  Whenever such a method is in force somewhere, the response does carry the secret. *)
+Theorem dcr_secret_works_everywhere : forall cfg ops1 o ops2 cid cr d,
+  let s := fst (drun cfg ops1) in
+  let n := List.length ops1 in
+  writes n o cid ->
+  snd (dstep cfg s n o) = DDoc cr d ->
+  forallb (leaves_alone cid) ops2 = true ->
+  let s2 := fst (drun cfg (ops1 ++ o :: ops2)) in
+  exists c, dfind cid s2 = Some c /\
+    forall ep sm, ep_enabled cfg ep = true ->
+      secret_method (effective_method ep (dc_meta c)) = Some sm ->
+      dget "client_secret" d = Some (JCred (mint n KSecret)) /\
+      (jwt_usable cfg ep (dc_meta c) sm = true -> authenticates cfg c ep sm (mint n KSecret) = true) /\
+      (forall sm' h', authenticates cfg c ep sm' h' = true -> sm' = sm /\ h' = mint n KSecret).
+Proof. exact secret_works_all_histories. Qed.
+Print Assumptions dcr_secret_works_everywhere.
+
+(* A response without client_secret: nothing is stored, hashed or in clear, and no secret-based
+   method is in force at any enabled endpoint. *)
+Theorem dcr_no_secret_no_method : forall cfg ops o cid cr d,
+  let s := fst (drun cfg ops) in
+  let n := List.length ops in
+  writes n o cid ->
+  snd (dstep cfg s n o) = DDoc cr d ->
+  dget "client_secret" d = None ->
+  exists c, dfind cid (fst (dstep cfg s n o)) = Some c /\ dc_hsecret c = 0 /\ dc_secret c = 0 /\
+    forall ep, ep_enabled cfg ep = true -> secret_method (effective_method ep (dc_meta c)) = None.
+Proof. exact no_secret_no_method. Qed.
+Print Assumptions dcr_no_secret_no_method.
+
+(* Every client of every reachable state has ONE secret h: its hash is stored exactly when
+   client_secret_basic / _post is in force at an enabled endpoint, the string itself exactly when
+   client_secret_jwt is, both are h (never two different secrets), and h opens every enabled endpoint. *)
+Theorem dcr_one_secret : forall cfg ops c,
+  In c (fst (drun cfg ops)) ->
+  exists h, sec_ok cfg c h /\
+    forall ep sm, ep_enabled cfg ep = true -> secret_method (effective_method ep (dc_meta c)) = Some sm ->
+      (jwt_usable cfg ep (dc_meta c) sm = true -> authenticates cfg c ep sm h = true) /\
+      (forall sm' h', authenticates cfg c ep sm' h' = true -> sm' = sm /\ h' = h).
+Proof. exact one_secret_all_histories. Qed.
+Print Assumptions dcr_one_secret.
+
+(* Capabilities, the members dcr_capabilities_meaning leaves out.  With authorization details switched
+   on, ALL authorization-detail types of every stored registration are enabled on the server - not
+   just one of them, wherever in the list they stand; the introspection / revocation methods a stored
+   registration names are among those enabled for that endpoint. *)
+Theorem dcr_capabilities_detail_types : forall cfg ops c,
+  In c (fst (drun cfg ops)) -> d_auth_details cfg = true ->
+  forall t, In t (glist "authorization_data_types" (dc_meta c)) -> In t (d_auth_detail_types cfg).
+Proof. exact detail_types_all_histories. Qed.
+Print Assumptions dcr_capabilities_detail_types.
+
+Theorem dcr_detail_type_refused : forall cfg s n b hk m t,
+  parse_body b = Some m -> hk = HkNone -> d_auth_details cfg = true ->
+  In t (glist "authorization_data_types" m) -> ~ In t (d_auth_detail_types cfg) ->
+  dstep cfg s n (Create b hk) = (s, DErr EInvalidClientMetadata).
+Proof. exact detail_type_refused. Qed.
+Print Assumptions dcr_detail_type_refused.
+
+Theorem dcr_capabilities_endpoint_methods : forall cfg ops c,
+  In c (fst (drun cfg ops)) ->
+  (forall a, gstr "introspection_endpoint_auth_method" (dc_meta c) = JStr a -> a <> "" -> In a (d_intro_methods cfg)) /\
+  (forall a, gstr "revocation_endpoint_auth_method" (dc_meta c) = JStr a -> a <> "" -> In a (d_revoc_methods cfg)).
+Proof.
+  intros cfg ops c I. apply caps_endpoint_methods.
+  eapply (inv_valid _ _ _ (inv_reachable cfg ops)); eauto.
+Qed.
+Print Assumptions dcr_capabilities_endpoint_methods.
+
 (* ---- the hypotheses are satisfiable: a concrete server and history ---- *)
 Definition ex_cfg : dcfg :=
   mkDcfg true ["client_credentials"] [] ["client_secret_post"] false [] false [] ["openid"] false ["public"] false
@@ -149,3 +232,28 @@ Proof. vm_compute. auto. Qed.
 Example ex_capability_refused :
   snd (dstep ex_cfg [] 0 (Create (Some [("grant_types", JArr ["authorization_code"])]) HkNone)) = DErr EInvalidClientMetadata.
 Proof. vm_compute. reflexivity. Qed.
+
+(* a server with introspection (client_secret_jwt) and revocation (client_secret_basic), a client that
+   mixes the three secret-based methods over the three endpoints: one secret, accepted everywhere *)
+Definition ex_cfg_mixed : dcfg :=
+  mkDcfg false ["client_credentials"] [] ["client_secret_post"] true ["client_secret_jwt"] true ["client_secret_basic"]
+         ["openid"] false ["public"] false
+         [] false false [] ["ES256"] false [] [] [] false [] [] false [] false [] [] false false [] [] [] [] ["HS256"] true ["payment"].
+Definition ex_doc_mixed : doc :=
+  [("token_endpoint_auth_method", JStr "client_secret_post"); ("introspection_endpoint_auth_method", JStr "client_secret_jwt");
+   ("revocation_endpoint_auth_method", JStr "client_secret_basic"); ("grant_types", JArr ["client_credentials"]);
+   ("authorization_data_types", JArr ["payment"])].
+Example ex_mixed_secret_works :
+  snd (xrun ex_cfg_mixed [XBase (Create (Some ex_doc_mixed) HkNone);
+                          XUse EpToken SmPost ex_id (mint 0 KSecret); XUse EpIntrospect SmJwt ex_id (mint 0 KSecret);
+                          XUse EpRevoke SmBasic ex_id (mint 0 KSecret); XUse EpToken SmBasic ex_id (mint 0 KSecret);
+                          XUse EpIntrospect SmPost ex_id (mint 0 KSecret); XUse EpRevoke SmBasic ex_id (mint 0 KRegToken)])
+  = match snd (xrun ex_cfg_mixed [XBase (Create (Some ex_doc_mixed) HkNone)]) with
+    | [a] => [a; DTok true; DTok true; DTok true; DTok false; DTok false; DTok false] | _ => [] end.
+Proof. vm_compute. reflexivity. Qed.
+Example ex_mixed_detail_types_refused :
+  snd (dstep ex_cfg_mixed [] 0 (Create (Some (dput "authorization_data_types" (JArr ["payment"; "account"]) ex_doc_mixed)) HkNone))
+    = DErr EInvalidClientMetadata /\
+  snd (dstep ex_cfg_mixed [] 0 (Create (Some (dput "authorization_data_types" (JArr ["account"; "payment"]) ex_doc_mixed)) HkNone))
+    = DErr EInvalidClientMetadata.
+Proof. vm_compute. auto. Qed.
